@@ -160,7 +160,7 @@ Run(S, song, rows, fuel, calls) ==
   ELSE LET step == S.p.wait
            S0 == [S EXCEPT !.p.wait = 0, !.p.abs = @ + step, !.log = <<>>]
            d  == Drain(S0, song, rows, fuel)
-           c  == << step, d.s.p.abs, d.s.p.wait, IF d.s.atEnd THEN 1 ELSE 0, d.s.log >>
+           c  == << step, d.s.p.abs, d.s.p.wait, IF d.s.atEnd THEN 1 ELSE 0, d.s.log, S.p.abs >>
        IN IF d.s.atEnd THEN [calls |-> Append(calls, c), atend |-> 1, trunc |-> 0]
           ELSE Run(d.s, song, rows, d.fuel, Append(calls, c))
 PlayModel(song, loopEn, loopN) ==
